@@ -50,27 +50,6 @@ theorem wp_t3Cancel {A} {Q : Unit → St → Prop} {e : Ep} {l : List Out}
       cases e with | mk _ _ _ _ _ _ _ _ _ _ _ _ _ _ _ _ _ _ _ tx => cases tx; simp_all
     rwa [he] at this
 
-theorem wp_rcCancel {A} {Q : Unit → St → Prop} {e : Ep} {l : List Out}
-    (hq : ∀ l', Q () ({ e with rcTimer := false }, l')) : wp A rcCancel Q (e, l) := by
-  unfold rcCancel
-  simp only [wp_bind, wp_getE]
-  split
-  · simp only [wp_bind, wp_emit, wp_modE]; exact hq _
-  · rename_i hf
-    simp only [wp_pure]
-    have := hq l
-    have he : ({ e with rcTimer := false } : Ep) = e := by cases e; simp_all
-    rwa [he] at this
-
-theorem wp_rcStart {A} {Q : Unit → St → Prop} {e : Ep} {l : List Out}
-    (hq : ∀ l', Q () ({ e with rcTimer := true }, l')) : wp A rcStart Q (e, l) := by
-  unfold rcStart
-  simp only [wp_bind]
-  refine wp_rcCancel ?_
-  intro l'
-  simp only [wp_modE, wp_emit]
-  exact hq _
-
 theorem wp_t1Start {A} {c : Chunk} {Q : Unit → St → Prop} {e : Ep} {l : List Out} (ht : e.t1 = false)
     (hq : ∀ l', Q () ({ e with t1Chunk := some c, t1Failures := 0, t1 := true }, l')) :
     wp A (t1Start c) Q (e, l) := by
@@ -241,15 +220,6 @@ theorem wp_dcClose {A} {i : Nat} {Q : Unit → St → Prop} {e : Ep} {l : List O
   · simp only [wp_pure]
     exact hq e l h rfl rfl rfl rfl rfl
 
-theorem encodeParams_single (t : Nat) (v : Bytes) : (encodeParams [(t, v)]).length = v.length + 4 := by
-  simp [encodeParams, encodeParamsAux, u16be]
-
-theorem reconfigChunk_inRange {t : Nat} {b : Bytes} (ht : t < 65536) (hb : b.length + 8 < 65536) :
-    (Chunk.params .reconfig 0 [(t, b)]).inRange = true := by
-  simp only [Chunk.inRange, paramsInRange, List.all_cons, List.all_nil, encodeParams_single, Bool.and_true,
-    Bool.and_eq_true, decide_eq_true_eq]
-  omega
-
 /-- `_send_reconfig_param(StreamResetResponseParam(...))`. -/
 theorem wp_sendReconfigResponse {A} {respSeq : Nat} {Q : Unit → St → Prop} {e : Ep} {l : List Out} (h : WF e)
     (hr : respSeq < 4294967296) (hq : ∀ l', Q () (e, l')) : wp A (sendReconfigResponse respSeq) Q (e, l) := by
@@ -260,60 +230,6 @@ theorem wp_sendReconfigResponse {A} {respSeq : Nat} {Q : Unit → St → Prop} {
   refine wp_sendChunk h (reconfigChunk_inRange (by decide) ?_) ?_
   · simp [RcParam.bytes, u32be]
   · intro d; exact hq _
-
-theorem length_u16sBytes (l : List Nat) : (u16sBytes l).length = 2 * l.length := by
-  induction l with
-  | nil => rfl
-  | cons a l ih => simp [u16sBytes, List.flatMap_cons] at ih ⊢; omega
-
-theorem tsn_minus_one_range (a : Int) : InRange32 (tsn_minus_one a) := by
-  unfold tsn_minus_one InRange32; omega
-
-theorem tsn_plus_one_range (a : Int) : InRange32 (tsn_plus_one a) := by
-  unfold tsn_plus_one InRange32; omega
-
-/-- `_transmit_reconfig()`. -/
-theorem wp_transmitReconfig {A} {Q : Unit → St → Prop} {e : Ep} {l : List Out} (h : WF e)
-    (hq : ∀ e' l', WF e' → e'.rwnd = e.rwnd → e'.inStreams = e.inStreams → e'.assoc = e.assoc → Q () (e', l')) :
-    wp A transmitReconfig Q (e, l) := by
-  unfold transmitReconfig
-  simp only [wp_bind, wp_getE]
-  split
-  · simp only [wp_bind, wp_setE]
-    obtain ⟨ha0, ha1⟩ := h.rcReq
-    obtain ⟨hb0, hb1⟩ := h.rcResp
-    obtain ⟨hc0, hc1⟩ := tsn_minus_one_range e.tx.localTsn
-    have hstreams : ∀ s ∈ e.reconfigQueue.take RECONFIG_MAX_STREAMS, s < 65536 :=
-      fun s hs => h.ch.rcq s (List.mem_of_mem_take hs)
-    have hser : (RcParam.resetOut e.reconfigRequestSeq.toNat e.reconfigResponseSeq.toNat
-        (tsn_minus_one e.tx.localTsn).toNat (e.reconfigQueue.take RECONFIG_MAX_STREAMS)).serialize =
-        .ok (RcParam.resetOut e.reconfigRequestSeq.toNat e.reconfigResponseSeq.toNat
-          (tsn_minus_one e.tx.localTsn).toNat (e.reconfigQueue.take RECONFIG_MAX_STREAMS)).bytes := by
-      have h1 : e.reconfigRequestSeq.toNat < 4294967296 := by omega
-      have h2 : e.reconfigResponseSeq.toNat < 4294967296 := by omega
-      have h3 : (tsn_minus_one e.tx.localTsn).toNat < 4294967296 := by omega
-      simp only [RcParam.serialize, RcParam.inRange, h1, h2, h3, decide_true, Bool.true_and, List.all_eq_true,
-        decide_eq_true_eq]
-      rw [if_pos]
-      intro s hs; exact hstreams s hs
-    simp only [hser, wp_liftO_ok]
-    have hw1 : WF { e with reconfigQueue := e.reconfigQueue.drop RECONFIG_MAX_STREAMS
-                           reconfigRequest := some (e.reconfigRequestSeq, e.reconfigResponseSeq,
-                             tsn_minus_one e.tx.localTsn, e.reconfigQueue.take RECONFIG_MAX_STREAMS)
-                           reconfigRequestSeq := tsn_plus_one e.reconfigRequestSeq } :=
-      ⟨h.net, ⟨h.ch.dcIdx, h.ch.dcKeys, h.ch.qIdx, h.ch.qId, h.ch.qRel, h.ch.qPpid, h.ch.sid,
-        fun s hs => h.ch.rcq s (List.mem_of_mem_drop hs)⟩, h.tx, h.rx, tsn_plus_one_range _, h.rcResp, h.sack⟩
-    refine wp_sendChunk hw1 (reconfigChunk_inRange (by decide) ?_) ?_
-    · have : (e.reconfigQueue.take RECONFIG_MAX_STREAMS).length ≤ 135 := by
-        rw [List.length_take]; exact Nat.min_le_left _ _
-      simp only [RcParam.bytes, List.length_append, length_u32be, length_u16sBytes]
-      omega
-    · intro d
-      refine wp_rcStart ?_
-      intro l'
-      exact hq _ _ (by wf_same hw1) rfl rfl rfl
-  · simp only [wp_pure]
-    exact hq e l h rfl rfl rfl
 
 theorem SidOk.del {ins : List (Nat × InStream)} (h : SidOk ins) (sid : Nat) : SidOk (dictDel ins sid) :=
   fun p hp => h p (List.mem_filter.mp hp).1
@@ -414,7 +330,10 @@ theorem wp_receiveReconfigParam {A} {p : RcParam} {Q : Unit → St → Prop} {e 
           refine wp_rcCancel ?_
           intro l2
           refine wp_transmitReconfig (by wf_same hw) ?_
-          intro e3 l3 hw3 hr3 hi3 has3
+          intro e3 l3 hw3 hf3
+          have hr3 := hf3.rwnd
+          have hi3 := hf3.ins
+          have has3 := hf3.assoc
           refine hq _ _ hw3 ?_ ?_ (has3.trans hest1)
           · rw [hr3, hi3]; simp only; rw [hr1, hi1]; exact ha
           · rw [hi3]; simp only; rw [hi1]; exact hso
